@@ -305,3 +305,271 @@ func staticCalleesWithin(fn *ssa.Function, depth int) []*ssa.Function {
 	}
 	return out
 }
+
+// ---------------------------------------------------------------------------------------------
+// Bottom-tested ("rotated") counting loops.
+//
+// go/ssa compiles `for i := range n` (n an integer) with the loop condition at the END of the
+// iteration and a copy of it in front of the loop:
+//
+//	pre:   if 0 < n goto body else done          (guard: is there a first iteration?)
+//	body:  i = phi [pre: 0, latch: i+1] … jump latch
+//	latch: i' = i + 1; if i' < n goto body else done
+//	done:  …
+//
+// The natural-loop head is `body`; the condition-false exit that a top-tested loop takes from its
+// head (`for i := 0; i < n; i++`) is here the pair of edges pre→done (no iteration) and latch→done
+// (the induction variable ran out). A hand-written `i := 0; for { …; i++; if i >= n { break } }` has
+// the same latch without the guard. Rules that tell "left the loop early" from "the loop ran to its
+// end" by "control passed the head again" must treat those edges like the head's exit edge.
+
+// loopRotation describes the bottom test of a counting loop.
+type loopRotation struct {
+	Latch  *ssa.BasicBlock   // the single back-edge source; its If decides between the next iteration and Exit
+	Exit   *ssa.BasicBlock   // entered when the loop condition is false
+	Guards []*ssa.BasicBlock // blocks in front of the loop that test the same condition for the first iteration (→ Head / Exit)
+	IV     *ssa.Phi          // the induction variable (phi of the head) whose next value the latch tests
+}
+
+// rotatedLoop recognises the shape above, nil otherwise. Required: one back edge; its source ends in
+// an If between the head and a block outside the loop; the condition compares the value the
+// induction phi takes over that back edge (phi ± constant) with a value that does not change in the
+// loop. A block in front of the loop counts as guard only when it tests the very same comparison
+// with the phi's initial value in place of the next one and branches to the same two blocks.
+func rotatedLoop(loop *Loop) *loopRotation {
+	if loop == nil || len(loop.Tails) != 1 {
+		return nil
+	}
+	t := loop.Tails[0]
+	if len(t.Instrs) == 0 || len(t.Succs) != 2 {
+		return nil
+	}
+	iff, ok := t.Instrs[len(t.Instrs)-1].(*ssa.If)
+	if !ok {
+		return nil
+	}
+	var exit *ssa.BasicBlock
+	headIdx := 0
+	switch {
+	case t.Succs[0] == loop.Head && !loop.Body[t.Succs[1]]:
+		exit = t.Succs[1]
+	case t.Succs[1] == loop.Head && !loop.Body[t.Succs[0]]:
+		exit, headIdx = t.Succs[0], 1
+	default:
+		return nil
+	}
+	cond, ok := iff.Cond.(*ssa.BinOp)
+	if !ok {
+		return nil
+	}
+	switch cond.Op {
+	case token.LSS, token.LEQ, token.GTR, token.GEQ, token.NEQ, token.EQL:
+	default:
+		return nil
+	}
+	predIdx := func(b, pred *ssa.BasicBlock) int {
+		for i, x := range b.Preds {
+			if x == pred {
+				return i
+			}
+		}
+		return -1
+	}
+	ti := predIdx(loop.Head, t)
+	if ti < 0 {
+		return nil
+	}
+	invariant := func(v ssa.Value) bool {
+		in, isInstr := v.(ssa.Instruction)
+		return !isInstr || in.Block() == nil || !loop.Body[in.Block()]
+	}
+	sameOperand := func(a, b ssa.Value) bool {
+		if a == b {
+			return true
+		}
+		ca, okA := a.(*ssa.Const)
+		cb, okB := b.(*ssa.Const)
+		return okA && okB && ca.Value != nil && cb.Value != nil && types.Identical(ca.Type(), cb.Type()) && constant.Compare(ca.Value, token.EQL, cb.Value)
+	}
+	for _, in := range loop.Head.Instrs {
+		iv, isPhi := in.(*ssa.Phi)
+		if !isPhi {
+			break
+		}
+		if ti >= len(iv.Edges) {
+			continue
+		}
+		next := iv.Edges[ti]
+		nb, isBin := next.(*ssa.BinOp)
+		if !isBin || (nb.Op != token.ADD && nb.Op != token.SUB) {
+			continue
+		}
+		if base, off, ok := pfAddConst(next); !ok || base != ssa.Value(iv) || off == 0 {
+			continue
+		}
+		nextOnLeft := false
+		var bound ssa.Value
+		switch {
+		case cond.X == next && invariant(cond.Y):
+			nextOnLeft, bound = true, cond.Y
+		case cond.Y == next && invariant(cond.X):
+			bound = cond.X
+		default:
+			continue
+		}
+		rot := &loopRotation{Latch: t, Exit: exit, IV: iv}
+		for i, pre := range loop.Head.Preds {
+			if loop.Body[pre] || len(pre.Succs) != 2 || pre.Succs[headIdx] != loop.Head || pre.Succs[1-headIdx] != exit {
+				continue
+			}
+			pif, ok := pre.Instrs[len(pre.Instrs)-1].(*ssa.If)
+			if !ok {
+				continue
+			}
+			pc, ok := pif.Cond.(*ssa.BinOp)
+			if !ok || pc.Op != cond.Op || i >= len(iv.Edges) {
+				continue
+			}
+			init, other := pc.Y, pc.X
+			if nextOnLeft {
+				init, other = pc.X, pc.Y
+			}
+			if sameOperand(init, iv.Edges[i]) && sameOperand(other, bound) {
+				rot.Guards = append(rot.Guards, pre)
+			}
+		}
+		return rot
+	}
+	return nil
+}
+
+// iterRegionOf: the blocks that may execute after `from` within the same iteration of loop — like
+// pfIterRegion, and for a bottom-tested loop the condition-false exit of the latch is not followed
+// either (what runs behind it runs after the loop, as behind the head's exit of a top-tested loop).
+// Blocks behind a `break`/`return` are included.
+func iterRegionOf(from ssa.Instruction, loop *Loop) map[*ssa.BasicBlock]bool {
+	rot := rotatedLoop(loop)
+	region := map[*ssa.BasicBlock]bool{from.Block(): true}
+	work := []*ssa.BasicBlock{from.Block()}
+	for len(work) > 0 {
+		b := work[len(work)-1]
+		work = work[:len(work)-1]
+		for _, s := range b.Succs {
+			if s == loop.Head || region[s] || (rot != nil && b == rot.Latch && s == rot.Exit) {
+				continue
+			}
+			region[s] = true
+			work = append(work, s)
+		}
+	}
+	return region
+}
+
+// loopTailsAfter: pfLoopTailsAfter over iterRegionOf.
+func loopTailsAfter(from ssa.Instruction, loop *Loop) []*ssa.BasicBlock {
+	region := iterRegionOf(from, loop)
+	var out []*ssa.BasicBlock
+	for _, t := range loop.Tails {
+		if region[t] {
+			out = append(out, t)
+		}
+	}
+	return out
+}
+
+// behindLoop: block b is entered only by way of the loop's condition — dominated by the head (top-
+// tested loop; callers exclude the iteration's own blocks with iterRegionOf), or dominated by the
+// exit block of a bottom-tested loop that nothing but the latch, the guards in front of the loop and
+// blocks of the loop body (a `break`, which iterRegionOf reports) can enter.
+func behindLoop(loop *Loop, b *ssa.BasicBlock) bool {
+	if loop.Head.Dominates(b) {
+		return true
+	}
+	rot := rotatedLoop(loop)
+	if rot == nil || !rot.Exit.Dominates(b) {
+		return false
+	}
+	for _, pred := range rot.Exit.Preds {
+		if pred == rot.Latch || loop.Body[pred] {
+			continue
+		}
+		isGuard := false
+		for _, g := range rot.Guards {
+			if g == pred {
+				isGuard = true
+			}
+		}
+		if !isGuard {
+			return false
+		}
+	}
+	return true
+}
+
+// carriedAtExit resolves a value read behind the loop to the head phi it is the final value of: the
+// head phi itself, or — bottom-tested loop — a phi of the exit block that merges exactly what the
+// head phi would have merged had the head been entered once more (the latch's back-edge value over
+// the latch's exit edge, the initial value over each guard's exit edge). A value that also arrives
+// over a `break` edge is not resolved.
+func carriedAtExit(v ssa.Value, loop *Loop) *ssa.Phi {
+	ph, ok := v.(*ssa.Phi)
+	if !ok {
+		return nil
+	}
+	if ph.Block() == loop.Head {
+		return ph
+	}
+	rot := rotatedLoop(loop)
+	if rot == nil || ph.Block() != rot.Exit {
+		return nil
+	}
+	headIdx := map[*ssa.BasicBlock]int{}
+	for i, pred := range loop.Head.Preds {
+		headIdx[pred] = i
+	}
+	isGuard := map[*ssa.BasicBlock]bool{}
+	for _, g := range rot.Guards {
+		isGuard[g] = true
+	}
+	for _, in := range loop.Head.Instrs {
+		hp, isPhi := in.(*ssa.Phi)
+		if !isPhi {
+			break
+		}
+		match := true
+		for i, pred := range rot.Exit.Preds {
+			hi, fromHeadPred := headIdx[pred]
+			if !fromHeadPred || (pred != rot.Latch && !isGuard[pred]) || i >= len(ph.Edges) || hi >= len(hp.Edges) {
+				match = false
+				break
+			}
+			a, b := ph.Edges[i], hp.Edges[hi]
+			if a == b {
+				continue
+			}
+			ca, okA := a.(*ssa.Const)
+			cb, okB := b.(*ssa.Const)
+			if !(okA && okB && ca.Value != nil && cb.Value != nil && types.Identical(ca.Type(), cb.Type()) && constant.Compare(ca.Value, token.EQL, cb.Value)) {
+				match = false
+				break
+			}
+		}
+		if match {
+			return hp
+		}
+	}
+	return nil
+}
+
+// rotExitEdge: pred → rot.Exit is one of the loop-condition-false edges (from the latch or a guard).
+func rotExitEdge(rot *loopRotation, pred *ssa.BasicBlock) bool {
+	if pred == rot.Latch {
+		return true
+	}
+	for _, g := range rot.Guards {
+		if g == pred {
+			return true
+		}
+	}
+	return false
+}
